@@ -51,14 +51,22 @@ MODEL = {
     'C35': dict(quick=['MC_bloom_quick.cfg', 'MC_bloom_quick_k1.cfg'],
                 thorough=['MC_bloom_thorough.cfg', 'MC_bloom_thorough_k3.cfg'],
                 neg=[('MC_bloom_neg_k0.cfg', 'NoFalseNegative'), ('MC_bloom_neg_addskip.cfg', 'NoFalseNegative'),
-                     ('MC_bloom_neg_count.cfg', 'CountMonotone'), ('MC_bloom_neg_noreset.cfg', 'AnswersPerKey')]),
+                     ('MC_bloom_neg_count.cfg', 'CountMonotone'), ('MC_bloom_neg_noreset.cfg', 'AnswersPerKey'),
+                     # round 2: error reply swallowed by AddMulti, repeated keys de-duplicated, batches cut regardless of key boundaries
+                     ('MC_bloom_neg_swallow.cfg', 'AddNilMeansPresent'), ('MC_bloom_neg_dedup.cfg', 'AnswersPerKey'),
+                     ('MC_bloom_neg_chunk.cfg', 'AnswersPerKey')]),
     'C36': dict(quick=['MC_counting_quick.cfg', 'MC_counting_quick_k1.cfg'],
                 thorough=['MC_counting_thorough.cfg'],
                 neg=[('MC_counting_neg_norollback.cfg', 'FailedRemoveChangesNothing'),
-                     ('MC_counting_neg_unguarded.cfg', 'NoNegativeCounter')]),
+                     ('MC_counting_neg_unguarded.cfg', 'NoNegativeCounter'),
+                     ('MC_counting_neg_rollbackall.cfg', 'FailedRemoveChangesNothing'),
+                     ('MC_counting_neg_onceperslot.cfg', 'MinCountAtLeastNet'),
+                     ('MC_counting_neg_swallow.cfg', 'AddNilMeansPresent')]),
     'C37': dict(quick=['MC_sliding_quick.cfg', 'MC_sliding_quick_excl.cfg'],
                 thorough=['MC_sliding_thorough.cfg'],
-                neg=[('MC_sliding_neg_both.cfg', 'PresentForHalfWindow'), ('MC_sliding_neg_current.cfg', 'PresentForHalfWindow')]),
+                neg=[('MC_sliding_neg_both.cfg', 'PresentForHalfWindow'), ('MC_sliding_neg_current.cfg', 'PresentForHalfWindow'),
+                     ('MC_sliding_neg_initany.cfg', 'PresentForHalfWindow'), ('MC_sliding_neg_ronext.cfg', 'SlidingAnswers'),
+                     ('MC_sliding_neg_swallow.cfg', 'PresentForHalfWindow')]),
 }
 
 
@@ -169,18 +177,24 @@ def tla_str(s):
     return '"' + s + '"'
 
 
-def gen_module(name, kind, size, k, hmap, keyseqs, q):
-    """module fixing H, the key sequences and the query battery of one generation run"""
+def tla_seq(xs):
+    return '<<' + ', '.join(tla_str(x) for x in xs) + '>>'
+
+
+def gen_module(name, kind, size, k, hmap, keyseqs, q, qs=(), ops=None, faults=()):
+    """module fixing H, the key sequences, the query batteries, the enabled operations and the reply classes of one generation run"""
     h = '[' + ', '.join('%s |-> <<%s>>' % (nm, ', '.join(str(v) for v in hmap[nm])) for nm in hmap) + ']'
-    ks = '{' + ', '.join('<<' + ', '.join(tla_str(x) for x in s) + '>>' for s in keyseqs) + '}'
-    qq = '<<' + ', '.join(tla_str(x) for x in q) + '>>'
-    return ('---- MODULE %s ----\nEXTENDS Bloom\nGenHSet == {%s}\nGenKeySeqs == %s\nGenQ == %s\n====\n' % (name, h, ks, qq))
+    ks = '{' + ', '.join(tla_seq(s) for s in keyseqs) + '}'
+    return ('---- MODULE %s ----\nEXTENDS Bloom\nGenHSet == {%s}\nGenKeySeqs == %s\nGenQ == %s\nGenQS == <<%s>>\nGenOps == %s\nGenFaults == {%s}\n====\n'
+            % (name, h, ks, tla_seq(q), ', '.join(tla_seq(b) for b in qs),
+               'AllOps' if ops is None else '{' + ', '.join(tla_str(o) for o in ops) + '}', ', '.join(tla_str(f) for f in faults)))
 
 
 def gen_cfg(kind, names, size, k, maxops, half, maxnow, maxtotal):
     return ('SPECIFICATION Spec\nCONSTANTS\n  Kind = "%s"\n  Items = {%s}\n  Size = %d\n  K = %d\n  HSet <- GenHSet\n'
             '  KeySeqs <- GenKeySeqs\n  Q <- GenQ\n  MaxOps = %d\n  Half = %d\n  MaxNow = %d\n  MaxTotal = %d\n'
-            '  ExpireInclusive = TRUE\n  Defect = "none"\n  AllowBadConfig = FALSE\n  Emit = TRUE\nINVARIANT EmitCase\nCHECK_DEADLOCK FALSE\n'
+            '  ExpireInclusive = TRUE\n  Defect = "none"\n  AllowBadConfig = FALSE\n  Emit = TRUE\n'
+            '  Faults <- GenFaults\n  QS <- GenQS\n  Ops <- GenOps\n  Big = FALSE\nINVARIANT EmitCase\nCHECK_DEADLOCK FALSE\n'
             % (kind, ', '.join(tla_str(n) for n in names), size, k, maxops, half, maxnow, maxtotal))
 
 
@@ -198,16 +212,21 @@ def gen_record(ctx, g):
     return g['hist'], g['exhaustive']
 
 
-def gen_job(prop, ind, items, keyseqs, maxops, simulate=None, seed=None, half=2, maxnow=12, maxtotal=4, tag=''):
+ALL_FAULTS = ('errreply', 'lostbefore', 'lostafter')
+
+
+def gen_job(prop, ind, items, keyseqs, maxops, simulate=None, seed=None, half=2, maxnow=None, maxtotal=4, tag='',
+            qs=(), ops=None, faults=(), window=None):
     """one TLC generation run for one induced configuration and one choice of real item strings -> list of histories
     (no access to the check context: several of these run side by side)"""
     kind = KIND[prop]
     names = NAMES[:len(items)]
     hmap = {nm: ind['idx'][it] for nm, it in zip(names, items)}
+    maxnow = maxnow or 6 * half
     tmp = tempfile.mkdtemp(prefix='verif-bloomgen-', dir=vlib.SCRATCH_ROOT)
     try:
         mod = 'BloomGen'
-        open(os.path.join(tmp, mod + '.tla'), 'w').write(gen_module(mod, kind, ind['size'], ind['k'], hmap, keyseqs, names))
+        open(os.path.join(tmp, mod + '.tla'), 'w').write(gen_module(mod, kind, ind['size'], ind['k'], hmap, keyseqs, names, qs, ops, faults))
         cfgp = os.path.join(tmp, 'Gen.cfg')
         open(cfgp, 'w').write(gen_cfg(kind, names, ind['size'], ind['k'], maxops, half, maxnow, maxtotal))
         kw = dict(workers=1, timeout=900, collect_cases=True, files=[os.path.join(tmp, mod + '.tla'), cfgp])
@@ -219,13 +238,15 @@ def gen_job(prop, ind, items, keyseqs, maxops, simulate=None, seed=None, half=2,
             return dict(hist=[], exhaustive=False, summary=summary,
                         err='history generation failed (%s): %s\n%s' % (tag, r.error, r.output[-2000:]))
         cfgd = dict(ind['config'])
+        if window and kind == 'sliding':
+            cfgd['window_ms'] = window          # the sizing does not depend on the window; the tick is half a window / Half
         window = cfgd.get('window_ms', 0)
         out = []
         for i, c in enumerate(r.cases):
             if kind != 'counting':
                 cfgd = dict(cfgd, ro=(i % 2 == 1))     # every other history uses the read-only Exists scripts (BITFIELD_RO)
             out.append(dict(id='%s-%d' % (tag, i), config=cfgd, tick_ms=(window // 2) // half if kind == 'sliding' else 0,
-                            size=ind['size'], k=ind['k'], items=dict(zip(names, items)), q=names, steps=c['steps'],
+                            size=ind['size'], k=ind['k'], items=dict(zip(names, items)), q=names, qs=[list(b) for b in qs], steps=c['steps'],
                             src='simulate seed %s' % seed if simulate else 'exhaustive'))
         return dict(hist=out, exhaustive=not simulate, summary=summary, err=None)
     finally:
@@ -272,10 +293,40 @@ def conform(ctx, prop, thorough, binp):
     else:
         ex_depth, ex_seqs = (4 if thorough else 3), seqs(names, 1) + [list(t) for t in itertools.permutations(names, 2)] + [[names[0], names[0]]]
         sim_depth, sim_n = 10, (400 if thorough else 120)
+    # --- round 2: batches queried as ONE call after every step (repeated keys; an absent/rarer key before a present one)
+    if kind == 'bloom':
+        qs = [[names[0], names[1], names[0], names[2], names[1]], [names[2], names[2]], [names[1], names[0], names[0], names[2]]]
+    elif kind == 'counting':
+        qs = [[names[2], names[0], names[1], names[0]], [names[1], names[1], names[2]], [names[0], names[2]]]
+    else:
+        qs = []           # Exists of the sliding filter is an action: repeated keys come with KeySeqs
+    base_ops = None if kind != 'sliding' else ['AddMulti', 'ExistsMulti', 'Reset', 'Delete', 'Tick']
     jobs = []
     for n_i, ind in enumerate(tiny[: (4 if thorough else (2 if kind == 'bloom' else 1))]):
         for items in pick_items(ind['idx'], nitems, rng, 2 if thorough else 1):
-            jobs.append(dict(args=(prop, ind, items, ex_seqs, ex_depth), kw=dict(tag='%s-s%dk%d-ex' % (kind, ind['size'], ind['k']))))
+            jobs.append(dict(args=(prop, ind, items, ex_seqs, ex_depth),
+                             kw=dict(tag='%s-s%dk%d-ex' % (kind, ind['size'], ind['k']), qs=qs, ops=base_ops)))
+    # --- round 2, directed exhaustive runs on the first tiny size
+    if tiny:
+        ind = tiny[0]
+        items = pick_items(ind['idx'], nitems, rng, 1)[0]
+        tagp = '%s-s%dk%d' % (kind, ind['size'], ind['k'])
+        a, b = names[0], names[1]
+        if kind == 'bloom':      # every reply class of the add script call
+            jobs.append(dict(args=(prop, ind, items, [[a], [a, b]], 3),
+                             kw=dict(tag=tagp + '-faults', qs=qs[:1], ops=['AddMulti', 'Reset'], faults=ALL_FAULTS)))
+        elif kind == 'counting':  # reply classes of the add and remove script calls
+            jobs.append(dict(args=(prop, ind, items, [[a], [b, a]], 3),
+                             kw=dict(tag=tagp + '-faults', qs=qs[:1], ops=['AddMulti', 'RemoveMulti'], faults=('errreply', 'lostafter'))))
+        else:
+            # rotation period of a window that is no whole number of seconds (1500 ms, Half = 3 ticks of 250 ms)
+            jobs.append(dict(args=(prop, ind, items, [[a]], 8 if thorough else 7),
+                             kw=dict(tag=tagp + '-w1500', ops=['Tick', 'AddMulti', 'ExistsMulti'], half=3, window=1500)))
+            # a second handle constructed for the same name at every point of a history
+            jobs.append(dict(args=(prop, ind, items, [[a]], 7 if thorough else 6),
+                             kw=dict(tag=tagp + '-newhandle', ops=['Tick', 'AddMulti', 'ExistsMulti', 'NewHandle'], half=2)))
+            jobs.append(dict(args=(prop, ind, items, [[a]], 4),
+                             kw=dict(tag=tagp + '-faults', ops=['Tick', 'AddMulti', 'ExistsMulti'], faults=('errreply', 'lostafter'), half=2)))
     # --- simulation: longer histories, batches of up to 3 keys; quick: one tiny, one near-1 (if usable), two typical sizes
     near = [i for i in usable if (i['config']['n'], i['config']['rate']) in NEAR1]
     typical = [i for i in rest if (i['config']['n'], i['config']['rate']) in TYPICAL]
@@ -283,10 +334,20 @@ def conform(ctx, prop, thorough, binp):
         sims = [(i, 2) for i in tiny + rest]
     else:
         sims = [(i, 1) for i in (tiny[2:3] or tiny[:1]) + near[:1] + typical[:2]]
+    windows = [(2000, 2), (1500, 3), (2500, 5), (3000, 3), (61000, 2)]      # (window in ms, Half): tick = window / 2 / Half
     for n_i, (ind, choices) in enumerate(sims):
         for t, items in enumerate(pick_items(ind['idx'], nitems, rng, choices)):
+            w, hf = windows[(n_i + t) % len(windows)]
             jobs.append(dict(args=(prop, ind, items, seqs(names, 3 if nitems == 2 or ind['size'] > 8 else 2), sim_depth),
-                             kw=dict(simulate=sim_n, seed=ctx.seed * 1000 + n_i * 10 + t, tag='%s-s%dk%d-sim' % (kind, ind['size'], ind['k']))))
+                             kw=dict(simulate=sim_n, seed=ctx.seed * 1000 + n_i * 10 + t, qs=qs, half=hf, window=w,
+                                     tag='%s-s%dk%d-sim%s' % (kind, ind['size'], ind['k'], ('-w%d' % w) if kind == 'sliding' else ''))))
+    # one more simulation with every reply class of the script calls (TLC's simulator evaluates all successors of a state, so
+    # the key sequences are kept short here)
+    for ind, _ in sims[-1:]:
+        items = pick_items(ind['idx'], nitems, rng, 1)[0]
+        jobs.append(dict(args=(prop, ind, items, seqs(names, 2), sim_depth),
+                         kw=dict(simulate=sim_n, seed=ctx.seed * 1000 + 777, qs=qs, faults=ALL_FAULTS,
+                                 tag='%s-s%dk%d-simfaults' % (kind, ind['size'], ind['k']))))
     with ThreadPoolExecutor(max_workers=4) as ex:
         futs = [ex.submit(gen_job, *j['args'], **j['kw']) for j in jobs]
         for f in futs:
@@ -307,6 +368,88 @@ def conform(ctx, prop, thorough, binp):
         shutil.rmtree(tmp, ignore_errors=True)
 
 
+# ------------------------------------------------------------------------------------------------ large batches (C35)
+BIG_RATES = [0.1, 0.03, 0.015, 0.01, 0.001]     # hashIterations 3, 5, 6, 7, 10 by the constructor's own sizing (read back, not assumed)
+
+
+def big_module(path):
+    return ('---- MODULE BloomBigGen ----\nEXTENDS Bloom\nJ == JsonDeserialize("%s")\nGenItems == 1..Len(J.idx)\nGenHSet == {J.idx}\n'
+            'GenKeySeqs == {J.add}\nGenQS == <<J.q1, J.q2>>\n====\n' % path)
+
+
+def big_cfg(size, k):
+    return ('SPECIFICATION Spec\nCONSTANTS\n  Kind = "bloom"\n  Items <- GenItems\n  Size = %d\n  K = %d\n  HSet <- GenHSet\n'
+            '  KeySeqs <- GenKeySeqs\n  Q <- NoQ\n  MaxOps = 1\n  Half = 0\n  MaxNow = 0\n  MaxTotal = 0\n'
+            '  ExpireInclusive = TRUE\n  Defect = "none"\n  AllowBadConfig = FALSE\n  Emit = TRUE\n'
+            '  Faults <- NoFaults\n  QS <- GenQS\n  Ops = {"AddMulti"}\n  Big = TRUE\nINVARIANT EmitCase\nCHECK_DEADLOCK FALSE\n' % (size, k))
+
+
+def big_job(ind, items, nkeys, ro, tag):
+    """TLC (Bloom.tla, Big = TRUE, H = the real index function of `nkeys` item strings): AddMulti of every other key as one
+    call, then the per-position answers and obligations of two ExistsMulti batches over all keys"""
+    tmp = tempfile.mkdtemp(prefix='verif-bloombig-', dir=vlib.SCRATCH_ROOT)
+    try:
+        add = list(range(1, nkeys + 1, 2))
+        q1 = list(range(1, nkeys + 1))                                 # added and never-added keys alternate
+        q2 = list(range(nkeys, 0, -1)) + add[:7]                       # reverse order, a few repeated keys at the end
+        data = os.path.join(tmp, 'big.json')
+        json.dump(dict(idx=[ind['idx'][it] for it in items[:nkeys]], add=add, q1=q1, q2=q2), open(data, 'w'))
+        modp, cfgp = os.path.join(tmp, 'BloomBigGen.tla'), os.path.join(tmp, 'Big.cfg')
+        open(modp, 'w').write(big_module(data))
+        open(cfgp, 'w').write(big_cfg(ind['size'], ind['k']))
+        r = vlib.tlc(FAMILY, 'BloomBigGen', 'Big.cfg', workers=1, timeout=900, collect_cases=True, files=[modp, cfgp])
+        summary = dict(r.summary(), purpose='large batch %s: %d keys, K=%d' % (tag, nkeys, ind['k']), histories=len(r.cases))
+        if not r.ok or len(r.cases) != 1:
+            return dict(case=None, summary=summary, err='large-batch generation failed (%s): %s\n%s' % (tag, r.error, r.output[-2000:]))
+        st = r.cases[0]['steps'][0]
+        if st['keys'] != add or len(st['qsans']) != 2 or len(st['qsans'][0]) != len(q1) or len(st['qsans'][1]) != len(q2):
+            return dict(case=None, summary=summary, err='large-batch generation (%s): unexpected shape of the emitted step' % tag)
+        return dict(case=dict(id=tag, config=dict(ind['config'], ro=ro), size=ind['size'], k=ind['k'], items=items[:nkeys], add=add,
+                              queries=[q1, q2], qsans=st['qsans'], qsmust=st['qsmust']), summary=summary, err=None)
+    finally:
+        shutil.rmtree(tmp, ignore_errors=True)
+
+
+def big(ctx, prop, thorough, binp):
+    """C35: one AddMulti / ExistsMulti call with more than 2^15 (thorough: 2^16) bit indexes, for hash counts that do not divide
+    a power of two; the answers are compared position by position with the specification"""
+    if prop != 'C35':
+        return
+    budget = 70000 if thorough else 33500
+    tmp = tempfile.mkdtemp(prefix='verif-bloombigrun-', dir=vlib.SCRATCH_ROOT)
+    try:
+        items = ['i%d' % i for i in range(budget // 3 + 60)]
+        req, res = os.path.join(tmp, 'req.json'), os.path.join(tmp, 'res.json')
+        json.dump(dict(configs=[dict(kind='bloom', n=20000, rate=r, window_ms=0) for r in BIG_RATES], items=items), open(req, 'w'))
+        rep = ctx.run_driver(binp, ['-mode', 'induce', '-in', req, '-res', res], timeout=600)
+        if rep is None or not os.path.exists(res):
+            ctx.inconclusive.append('bloomdrv -mode induce (large batches) produced nothing')
+            return
+        inds = [i for i in json.load(open(res)) if i['accepted'] and i['k'] >= 1]
+        jobs = []
+        for n_i, ind in enumerate(inds):
+            nkeys = budget // ind['k'] + 41 + 2 * n_i
+            jobs.append((ind, items, nkeys, n_i % 2 == 1, 'bloom-big-s%dk%d' % (ind['size'], ind['k'])))
+        cases = []
+        with ThreadPoolExecutor(max_workers=3) as ex:
+            for g in ex.map(lambda j: big_job(*j), jobs):
+                ctx.tlc_runs.append(g['summary'])
+                ctx.states += g['summary']['distinct']
+                ctx.transitions += g['summary']['generated']
+                if g['err']:
+                    ctx.inconclusive.append(g['err'])
+                else:
+                    cases.append(g['case'])
+        if not cases:
+            return
+        path = os.path.join(tmp, 'big.json')
+        json.dump(cases, open(path, 'w'))
+        if ctx.run_driver(binp, ['-mode', 'big', '-in', path], timeout=1800) is not None:
+            ctx.extra['large_batches'] = ['K=%d: AddMulti %d keys, ExistsMulti %d keys' % (c['k'], len(c['add']), len(c['queries'][0])) for c in cases]
+    finally:
+        shutil.rmtree(tmp, ignore_errors=True)
+
+
 def run(ctx, prop):
     th = ctx.tier == 'thorough'
     binp = vlib.build('bloomdrv')
@@ -314,8 +457,15 @@ def run(ctx, prop):
         model(ctx, prop, th)
     else:
         ctx.notes.append('VERIF_SKIP_MODEL=1: exhaustive model checking and negative configs were skipped in this run')
-    sweep(ctx, prop, binp)
-    conform(ctx, prop, th, binp)
+    stages = [x for x in os.environ.get('VERIF_BLOOM_STAGES', 'sweep,conform,big').split(',') if x]   # development aid, like VERIF_SKIP_MODEL
+    if 'sweep' in stages:
+        sweep(ctx, prop, binp)
+    if 'conform' in stages:
+        conform(ctx, prop, th, binp)
+    if 'big' in stages:
+        big(ctx, prop, th, binp)
+    if len(stages) < 3:
+        ctx.notes.append('VERIF_BLOOM_STAGES=%s: the other conformance stages were skipped in this run' % ','.join(stages))
     ctx.assumptions += [
         'fakeredis + luamini execute the real script texts of rueidisprob; they stand for a Redis server',
         'murmur3 and the float sizing formulas are given functions: the hash function of the generation runs is the one the real '
